@@ -159,7 +159,7 @@ def run_tlc(workdir, module, cfg=None, workers=None, timeout=600, simulate=None,
     m = re.search(r"Invariant (\S+) is violated", r.out)
     if m:
         r.violation = m.group(1)
-    elif re.search(r"Temporal properties were violated|Action property (\S+) is violated", r.out):
+    elif re.search(r"Temporal propert(y|ies) .*violated|Action property (\S+) is violated", r.out):
         mm = re.search(r"Action property (\S+) is violated", r.out)
         r.violation = mm.group(1) if mm else "temporal"
     elif "Deadlock reached" in r.out:
@@ -343,7 +343,7 @@ class Check:
         log("violation:", sig, str(detail)[:2000])
         return True
 
-    def finish(self):
+    def finish(self, inconclusive=False):
         wall = time.time() - self.t0
         cov = self.cov
         if not cov["samples"]:
@@ -365,10 +365,10 @@ class Check:
                 print("VIOLATION property=%s replay=%s" % (self.prop, v["replay"] or "-"), flush=True)
                 print("  signature: %s" % v["sig"], flush=True)
             return EXIT_VIOLATION
-        print("OK property=%s tier=%s seed=%d states=%d cases=%d traces=%d wall=%.1fs" % (
-            self.prop, self.tier, self.seed, cov["states"], cov["evaluations"],
+        print("%s property=%s tier=%s seed=%d states=%d cases=%d traces=%d wall=%.1fs" % (
+            "INCONCLUSIVE" if inconclusive else "OK", self.prop, self.tier, self.seed, cov["states"], cov["evaluations"],
             cov["traces_validated_against_impl"], wall), flush=True)
-        return EXIT_OK
+        return EXIT_INCONCLUSIVE if inconclusive else EXIT_OK
 
 
 def main(prop, level, body):
@@ -383,7 +383,7 @@ def main(prop, level, body):
         c.cov["explanation"] = "inconclusive: %s" % str(e)[:500]
         rc = EXIT_INCONCLUSIVE
         try:
-            if c.finish() == EXIT_VIOLATION:
+            if c.finish(inconclusive=True) == EXIT_VIOLATION:
                 rc = EXIT_VIOLATION
         except Exception:
             pass
